@@ -11,7 +11,7 @@ from __future__ import annotations
 import ast
 
 from ..core import UNKNOWN, AnalysisError, ClassInfo, FuncInfo, body_no_doc, call_name, get_arg, is_self_attr, norm, walk_no_nested
-from ..paths import cfg_of, node_of, structural_guards
+from ..paths import canon, cfg_of, node_of, structural_guards
 from ..strflow import parts
 
 EXPLANATION = (
@@ -167,7 +167,8 @@ class Axis:
                         self._tag(nm, self.of(e))
                 return
             cn = call_name(v) if isinstance(v, ast.Call) else None
-            is_coord_var = isinstance(v, ast.Name) and v.id in ("coord", "digits", "xyzt", "coordinates")
+            # a parameter holding coordinates, or a local that is the result of the coordinate parser
+            is_coord_var = isinstance(v, ast.Name) and (v.id in ("coord", "coordinates", "xyzt") or canon(self.f, v).startswith(("convert_coordinates(", "self._translate_")))
             if len(names) == 4 and (cn in UNPACK4 or is_coord_var):
                 for nm, ax in zip(names, (XAX, YAX, XAX, YAX)):
                     if nm:
@@ -187,7 +188,18 @@ class Axis:
                     if nm:
                         self._tag(nm, ax)
             elif len(names) == 2 and isinstance(v, ast.Attribute) and v.attr in ("size",):
-                pass
+                # Table.size is (width, height): the axes of the two components are read off its getter
+                axes = (XAX, YAX)
+                g = self.f.cls.lookup("size", "getter") if self.f.cls is not None else None
+                if g is not None:
+                    rets = [r.value for r in walk_no_nested(g.node) if isinstance(r, ast.Return) and isinstance(r.value, ast.Tuple) and len(r.value.elts) == 2]
+                    if rets:
+                        got = tuple(self.of(e) for e in rets[0].elts)
+                        if all(got):
+                            axes = got
+                for nm, ax in zip(names, axes):
+                    if nm:
+                        self._tag(nm, ax)
         # self.start = x, y
         if isinstance(t, ast.Attribute) and is_self_attr(t) and isinstance(v, ast.Tuple):
             self.attr_tuple[t.attr] = tuple(self.of(e) for e in v.elts)
